@@ -154,6 +154,16 @@ def can_stream(g, rng, udp, fd, n_rand):
         out.append(('full-mtu', wrap(tscf, many)))
         out.append(('full-mtu', wrap(tscf, many[:len(many) // 4 * 4], dlen=len(many) // 4 * 4)))
         out += [('mutated', m) for m in mutate(rng, base, n_rand)]
+        # the receive buffer is an uninitialised local: whatever lies behind the received bytes is arbitrary.  Here it is a run of
+        # well-formed CAN messages that starts exactly where the parser would go on reading (and fills pdu[] to its end), behind
+        # datagrams that end inside or right behind their headers and announce more data than arrived
+        filler = b''.join(g.can_msg(rng.bits(11), rng.bytes(8), fdf=int(fd)) for _ in range(70))
+        stale = (bytes(hdr) + filler)[:1500]
+        big = 2047 if not tscf else 0xffff
+        for k in sorted(set([0, 1, 4, 11, 12, 13, 16, 20, 23, 24, 25, 26, 27, 28, 29, hdr - 1, hdr, hdr + 1, hdr + 8, hdr + 15, hdr + 16, hdr + 17])):
+            for dl in (big, 24 * 5, None):
+                d = wrap(tscf, good[0], dlen=dl)[:k]
+                out.append(('short-with-stale-messages', d, stale))
     out += [('random', rng.bytes(rng.choice([0, 1, 11, 12, 13, 28, 40, 100, 1500]))) for _ in range(n_rand)]
     out += [('fill', bytes([v]) * n) for v in (0, 0xff, 0x02, 0x82, 0x05) for n in (12, 40, 1500)]
     out.append(('oversize', rng.bytes(1600)))
@@ -340,7 +350,8 @@ def sessions_for(ctx, tier, seed):
     for udp in (False, True):
         for fd in (False, True):
             for i, ch in enumerate(chunks(can_stream(g, rng, udp, fd, n_rand), 60)):
-                S.append({'listener': 'can', 'mode': {'udp': udp, 'fd': fd}, 'id': 'can-%d%d-%d' % (udp, fd, i), 'args': ['udp' if udp else 'raw', 'fd' if fd else 'cc'], 'dgrams': ch})
+                S.append({'listener': 'can', 'mode': {'udp': udp, 'fd': fd}, 'id': 'can-%d%d-%d' % (udp, fd, i), 'args': ['udp' if udp else 'raw', 'fd' if fd else 'cc'],
+                          'dgrams': [(t[0], t[1]) for t in ch], 'stale': {j: t[2] for j, t in enumerate(ch) if len(t) > 2}})
         for i, ch in enumerate(chunks(hello_stream(g, rng, udp, n_rand), 60)):
             S.append({'listener': 'hello', 'mode': {'udp': udp}, 'id': 'hello-%d-%d' % (udp, i), 'args': ['-u'] if udp else [], 'dgrams': ch})
         for i, ch in enumerate(chunks(vss_stream(g, rng, udp, n_rand), 60)):
@@ -360,7 +371,8 @@ def oracle_lines(s):
     L = s['listener']
     hx = lambda d: vlib.hexbuf(d)
     if L == 'can':
-        return [], ['XL %d %d %s %02x' % (s['mode']['udp'], s['mode']['fd'], hx(d), exlib.PATTERN) for _, d in s['dgrams']]
+        st = s.get('stale', {})
+        return [], ['XL %d %d %s %s' % (s['mode']['udp'], s['mode']['fd'], hx(d), ('S' + st[j].hex()) if j in st else '%02x' % exlib.PATTERN) for j, (_, d) in enumerate(s['dgrams'])]
     if L == 'hello':
         return ['XH0 %02x' % exlib.PATTERN], ['XH %d %s' % (s['mode']['udp'], hx(d)) for _, d in s['dgrams']]
     if L == 'vss':
@@ -436,7 +448,14 @@ def run_all(ctx, sessions, st):
             for s in ss:
                 impl[s['id']] = {'events': {}, 'end': 'NOT BUILT: %s' % st['errors'].get(L, '?')[:300], 'last': -1}
             continue
-        r = exlib.run_sessions(st['exe'][L], [{'id': s['id'], 'args': s['args'], 'items': [('D', d) for _, d in s['dgrams']]} for s in ss], timeout=1800)
+        def items_of(s):
+            it = []
+            for j, (_, d) in enumerate(s['dgrams']):
+                if j in s.get('stale', {}):
+                    it.append(('X', s['stale'][j]))
+                it.append(('D', d))
+            return it
+        r = exlib.run_sessions(st['exe'][L], [{'id': s['id'], 'args': s['args'], 'items': items_of(s)} for s in ss], timeout=1800)
         impl.update(r)
     for s, (start, cnt) in zip(sessions, spans):
         r = impl[s['id']]
@@ -449,6 +468,7 @@ def run_all(ctx, sessions, st):
             key = {'listener': L, 'kind': kind}
             key.update({k: v for k, v in s['mode'].items()})
             base = {'key': key, 'session': s['id'], 'args': s['args'], 'index': idx, 'datagram': d.hex(), 'model': model[:300],
+                    'buffer_before': s.get('stale', {}).get(idx, b'').hex() or None,
                     'history': [x.hex() for _, x in s['dgrams'][:idx]] if L in ('hello', 'vss', 'aaf', 'cvf', 'crf') and idx <= 40 else '(see session)'}
             mstat = model.split()[0] if model else 'EXC'
             if any(mstat.startswith(b) for b in BAD_MODEL):
@@ -477,7 +497,8 @@ def replay(ctx, path):
         mode = {k: v for k, v in f['key'].items() if k not in ('listener', 'kind')}
         hist = f.get('history') if isinstance(f.get('history'), list) else []
         dg = [('history', bytes.fromhex(x)) for x in hist] + [(f['key'].get('kind', '?'), bytes.fromhex(f['datagram']))]
-        s = {'listener': L, 'mode': mode, 'id': 'replay', 'args': f.get('args', []), 'dgrams': dg}
+        s = {'listener': L, 'mode': mode, 'id': 'replay', 'args': f.get('args', []), 'dgrams': dg,
+             'stale': ({len(dg) - 1: bytes.fromhex(f['buffer_before'])} if f.get('buffer_before') else {})}
         fl, tie, _, _ = run_all(ctx, [s], st)
         bad = [x for x in fl + tie if x['index'] == len(dg) - 1]
         return {'impl': bad[0]['impl'] if bad else 'agrees with the model, survives', 'expected': f.get('expected', ''), 'fails': bool(bad)}
